@@ -4,7 +4,7 @@ NOTES = ("All checks: ./check <id> --tier quick|thorough; setup builds the Coq d
          "and compiles the driver. known_findings.json lists recorded defects (kind known) and repaired ones (kind fixed).")
 NOT_APPLICABLE = {}
 # built, but their fix stage is in progress (model already in the repaired state, patches not yet committed to /repo)
-PENDING = {"C05", "C06"}
+PENDING = {"C06"}
 COMMON_NOTE = ("Trusted: Coq 8.16.1 kernel (+vm_compute), extraction (ExtrOcamlBasic, ExtrOcamlString), OCaml driver, the Python harness, "
                "CPython/torch as referents. Theorems are about the hand-written model; the model<->code tie is this run's differential "
                "correspondence, bounded by its generators (distribution in the evidence). ")
